@@ -2,7 +2,7 @@
 
 Decided statically: the SHAPE of the durability protocol on every path — log-before-apply, fsync per policy,
 temp+flush+fsync+rename+dirsync, publish-before-prune, list-before-use, start-up decision, no swallowed
-protocol error.  These are necessary conditions of the behaviour (breaking one breaks crash safety); the check
+protocol error, the snapshot claims only sequence numbers already handed out, the configured fsync policy is the one that runs.  These are necessary conditions of the behaviour (breaking one breaks crash safety); the check
 decides these parts, not the behaviour: what a given crash state contains, torn-write handling and replay
 arithmetic are not decided.
 """
@@ -18,7 +18,8 @@ from rules import C09 as _c09
 MANIFEST = {
     'text': 'Decides the structural clauses of the durability protocol on every CFG path of the write, snapshot, '
             'rotation and start-up code (log-before-apply, fsync-per-policy, atomic replace, publish-before-prune, '
-            'list-before-use, start-up decision, no swallowed protocol error). Each clause is a necessary condition '
+            'list-before-use, start-up decision, no swallowed protocol error, sequence accounting of what a snapshot claims to cover, '
+            'configured fsync policy → engine policy). Each clause is a necessary condition '
             'of crash safety; the check decides the clause, not the behaviour (crash-state contents, torn writes and '
             'replay arithmetic are not decided).',
     'design_ref': 'DESIGN.md §4.1',
